@@ -16,6 +16,8 @@ impl LocalKey {
         use digest::Mac;
 
         let (ek, n2) = kdf(&self.0, 0x80, nonce).split();
+        #[cfg(paseto_rs_verif)]
+        let n2 = crate::verif_hooks::iv(n2);
         let ak = kdf(&self.0, 0x81, nonce);
 
         let cipher = ctr::Ctr64BE::<aes::Aes256>::new(&ek, &n2);
